@@ -57,7 +57,10 @@ def slice_windows(fn: ast.FunctionDef, seg_list: str | None, len_list: str | Non
             if set(kw) == {"initial"} and isinstance(kw["initial"], ast.Constant) and kw["initial"].value == 0:
                 return lambda k: sum((inner(j) for j in range(k)), sympy.Integer(0))
             return None
-        if isinstance(e, ast.ListComp) and len(e.generators) == 1 and not e.generators[0].ifs and isinstance(e.generators[0].target, ast.Name):
+        if isinstance(e, ast.Call) and norm(e.func).split(".")[-1] == "pairwise" and len(e.args) == 1 and not e.keywords:
+            inner = lst(e.args[0])
+            return None if inner is None else (lambda k: (inner(k), inner(k + 1)))
+        if isinstance(e, (ast.ListComp, ast.GeneratorExp)) and len(e.generators) == 1 and not e.generators[0].ifs and isinstance(e.generators[0].target, ast.Name):
             src = lst(e.generators[0].iter)
             if src is None:
                 return None
@@ -111,9 +114,16 @@ def slice_windows(fn: ast.FunctionDef, seg_list: str | None, len_list: str | Non
             env[norm(target.elts[0])] = sympy.Integer(k)
             return bind(target.elts[1], it.args[0], k)
         src = lst(it)
-        if src is None or not isinstance(target, ast.Name):
+        if src is None:
             return False
-        env[target.id] = src(k)
+        val = src(k)
+        if isinstance(target, ast.Tuple) and isinstance(val, tuple) and len(val) == len(target.elts) and all(isinstance(t, ast.Name) for t in target.elts):
+            for t, v in zip(target.elts, val):
+                env[t.id] = v
+            return True
+        if not isinstance(target, ast.Name):
+            return False
+        env[target.id] = val
         return True
 
     body = strip_docstring(fn.body)
